@@ -149,11 +149,25 @@ def check(ctx: Ctx, col: Collector, tier: str) -> None:
         assigned = {t.id for s in iff.body if isinstance(s, ast.Assign) for t in s.targets if isinstance(t, ast.Name)}
         # names assigned in the guarded block must not be read after it (except by the logging call inside)
         leaked = []
+        in_loop = any(isinstance(l, (ast.For, ast.While)) and _within(l, iff) for l in ast.walk(f.node))
         for x in ast.walk(f.node):
-            if isinstance(x, ast.Name) and isinstance(x.ctx, ast.Load) and x.id in assigned and not _within(iff, x) and x.lineno > iff.end_lineno:
-                # re-assigned before this read? accept only if every read after the block is preceded by a new assignment
-                re_assigned = any(isinstance(s, ast.Assign) and any(isinstance(t, ast.Name) and t.id == x.id for t in s.targets)
-                                  and iff.end_lineno < s.lineno <= x.lineno for s in ast.walk(f.node))
+            if isinstance(x, ast.Name) and isinstance(x.ctx, ast.Load) and x.id in assigned and not _within(iff, x) and (x.lineno > iff.end_lineno or in_loop):
+                # a read outside the guarded block is harmless only if the same statement list assigns the name anew before it
+                # (a read above the block inside the same loop sees the value of the previous iteration)
+                blk_owner = repo.parent(x)
+                stmt = x
+                while blk_owner is not None and not any(isinstance(getattr(blk_owner, fld, None), list) and any(stmt is y for y in getattr(blk_owner, fld)) for fld in ("body", "orelse", "finalbody")):
+                    stmt, blk_owner = blk_owner, repo.parent(blk_owner)
+                re_assigned = False
+                if blk_owner is not None:
+                    for fld in ("body", "orelse", "finalbody"):
+                        blk = getattr(blk_owner, fld, None)
+                        if isinstance(blk, list) and any(stmt is y for y in blk):
+                            for y in blk:
+                                if y is stmt:
+                                    break
+                                if isinstance(y, ast.Assign) and any(isinstance(t, ast.Name) and t.id == x.id for t in y.targets):
+                                    re_assigned = True
                 if not re_assigned:
                     leaked.append((x.id, x.lineno))
         if body_ok and not iff.orelse and not leaked:
